@@ -509,7 +509,7 @@ theorem stepAux_proto (s : ISrc) (t : Nat) (c : FCfg) (core' : Cfg) (op : Op)
     (hd : (c.d t).dead = false) (hcur : (c.d t).cur = some op) (hq : isQuery op = false) :
     stepAux s t c core' =
       (let r := insFx s c (c.d t) (c.core.th t).pc (loopParams op).isSome
-                  (match emit s.fn t c.core with | some e => [e] | none => [])
+                  (emitEvs s t c.core)
        if r.2.2.2 then (setD r.1 t r.2.1, r.2.2.1, true) else
        match ((core'.th t).outs.drop (c.core.th t).outs.length).head? with
        | none => (setD r.1 t r.2.1, r.2.2.1, true)
@@ -534,7 +534,7 @@ theorem step_proto_eq (s : ISrc) (t : Nat) (c : FCfg) (op : Op)
     (hd : (c.d t).dead = false) (hcur : (c.d t).cur = some op) (hq : isQuery op = false) :
     (step s t c).1 =
       (let r := insFx s c (c.d t) (c.core.th t).pc (loopParams op).isSome
-                  (match emit s.fn t c.core with | some e => [e] | none => [])
+                  (emitEvs s t c.core)
        let q : FCfg × List Ev × Bool :=
          if r.2.2.2 then (setD r.1 t r.2.1, r.2.2.1, true) else
          match (((IW.step s.fn t c.core).th t).outs.drop (c.core.th t).outs.length).head? with
